@@ -359,6 +359,12 @@ example : S1.dataFr.deliveries (new S1.si 0) ops2 = [(51, [3, 4]), (53, [8, 9])]
 -- the premise is needed: a skip over a reliable message that has NOT arrived completely is not admissible
 example : ¬ S1.AdmissibleS K1 S1.dataFr (new S1.si 0) 0 0 [] [.skip 2] := by decide
 
+-- ... and what it protects from (component-level shadow of known finding D24, where the entry stems from another stream
+-- incarnation): a skip that passes the reliable message 1 before it has arrived makes the queue drop it at the door
+private def opsBad : List SOp := [.skip 2, .push 1 0, .read 100, .push 3 0, .push 3 1, .read 100]
+example : ¬ S1.AdmissibleS K1 S1.dataFr (new S1.si 0) 0 0 [] opsBad := by decide
+example : S1.dataFr.deliveries (new S1.si 0) opsBad = [(53, [8, 9])] := by decide
+
 -- I-DATA: first message abandoned (nothing received), message 2 abandoned after one fragment, 1 and 3 reliable
 private def ops3 : List SOp := [.push 1 0, .push 2 1, .skip 0, .read 100, .skip 2, .push 3 1, .push 3 0, .read 100]
 example : S1.AdmissibleS K1 (S1.idataFr fun _ _ => 7) (new S1.si 0) 0 0 [] ops3 := by decide
